@@ -257,6 +257,17 @@ def run_reactor(case, want_smarts=False, prune=True):
                               cfg.get("implicit_temp", False), strategy, **opts)
         else:
             R = SR.SynReactor(sobj, tpl_arg, invert=bool(case.get("invert", False)), strategy=strategy, **cfg, **opts)
+        # inputs as the caller holds them, before anything is computed
+        raw_in = sobj._raw if hasattr(sobj, "_raw") else sobj
+        snap_sub = _gsig(raw_in) if hasattr(raw_in, "nodes") else None
+        snap_tpl = _gsig(tpl)
+        first = case.get("first")
+        if first:
+            # the FIRST thing asked of a fresh reactor (nothing else has been read yet)
+            try:
+                getattr(R, first)
+            except StopIteration:
+                pass
         rec.R = R
         rec.host = R.graph.raw
         rec.rule = R.rule
@@ -271,6 +282,7 @@ def run_reactor(case, want_smarts=False, prune=True):
             rec.its_err = "StopIteration"
         if want_smarts:
             rec.smarts = list(R.smarts_list) if rec.its_err is None else []
+        rec.inputs_ok = True
         rec.reads_ok = True
         reads = int(case.get("reads", 0))
         if reads > 1 and rec.its_err is None:
@@ -291,6 +303,10 @@ def run_reactor(case, want_smarts=False, prune=True):
             rec.its_list = list(R.its_list)
             if want_smarts:
                 rec.smarts = list(R.smarts_list)           # the oracle judges the LAST read
+        # the caller's objects must be, attribute for attribute, what they were before the call
+        if (snap_sub is not None and _gsig(raw_in) != snap_sub) or _gsig(tpl) != snap_tpl:
+            rec.inputs_ok = False
+            rec.inputs_what = "substrate graph" if (snap_sub is not None and _gsig(raw_in) != snap_sub) else "template graph"
         mut = case.get("mutate_results")
         if mut and rec.its_err is None:
             # the caller edits what it got back; nothing computed later may depend on it (see the history cases)
